@@ -774,50 +774,84 @@ func ruleC03Freeze(p *Prog, a *Anchors, ba *banAnchors, r *Report) {
 			}
 		}
 	}
-	// (iii) every exported template-creating method sets the flag before any template is constructed
-	ctorCalls := func(f *ssa.Function) []ssa.Instruction {
-		var out []ssa.Instruction
-		for _, b := range f.Blocks {
-			for _, in := range b.Instrs {
-				if ci, ok := in.(ssa.CallInstruction); ok {
-					if c := ci.Common().StaticCallee(); c != nil && (c == a.NewTemplate || (p.InPkg(c) && c.Name() == "newTemplateString")) {
-						out = append(out, in)
-					}
-				}
-			}
-		}
-		return out
+	// (iii) every exported template-creating method sets the flag before any template is constructed — by itself or
+	// in the (unexported) helpers it constructs through
+	isCtor := func(c *ssa.Function) bool {
+		return c != nil && (c == a.NewTemplate || (p.InPkg(c) && c.Name() == "newTemplateString"))
 	}
-	for _, f := range a.CompileEntries {
-		cs := ctorCalls(f)
-		name := p.FuncName(f)
-		if len(cs) == 0 {
-			// delegates to another From* method: fine if every path to the delegation... the delegate sets it
-			delegates := false
+	// functions of the package that may construct a template through static calls
+	mayConstruct := map[*ssa.Function]bool{}
+	for changed := true; changed; {
+		changed = false
+		for _, f := range p.Funcs {
+			if mayConstruct[f] || f.Blocks == nil || !p.InPkg(f) {
+				continue
+			}
 			for _, b := range f.Blocks {
 				for _, in := range b.Instrs {
 					if ci, ok := in.(ssa.CallInstruction); ok {
-						if c := ci.Common().StaticCallee(); c != nil {
-							for _, g := range a.CompileEntries {
-								if g == c && g != f {
-									delegates = true
-								}
-							}
+						if c := ci.Common().StaticCallee(); c != nil && (isCtor(c) || mayConstruct[c]) && !mayConstruct[f] {
+							mayConstruct[f] = true
+							changed = true
 						}
 					}
 				}
 			}
-			if delegates {
-				r.Trivial(name+":delegates", p.Pos(f.Pos()), "constructs templates only through another From* method")
+		}
+	}
+	isEntry := map[*ssa.Function]bool{}
+	for _, f := range a.CompileEntries {
+		isEntry[f] = true
+	}
+	// unfrozen(f): a constructing call in f (or below, through unexported helpers) that is not preceded on every path
+	// by the freeze store
+	var unfrozen func(f *ssa.Function, seen map[*ssa.Function]bool) (ssa.Instruction, int)
+	unfrozen = func(f *ssa.Function, seen map[*ssa.Function]bool) (ssa.Instruction, int) {
+		if seen[f] {
+			return nil, 0
+		}
+		seen[f] = true
+		n := 0
+		for _, b := range f.Blocks {
+			for _, in := range b.Instrs {
+				ci, ok := in.(ssa.CallInstruction)
+				if !ok {
+					continue
+				}
+				c := ci.Common().StaticCallee()
+				if c == nil || !(isCtor(c) || mayConstruct[c]) {
+					continue
+				}
+				n++
+				if MustPass(in, func(x ssa.Instruction) bool { return isFreezeSet(x, ba.freeze) }) {
+					continue
+				}
+				if isCtor(c) {
+					return in, n
+				}
+				if isEntry[c] {
+					continue // judged as an entry of its own
+				}
+				if bad, _ := unfrozen(c, seen); bad != nil {
+					return bad, n
+				}
 			}
+		}
+		return nil, n
+	}
+	for _, f := range a.CompileEntries {
+		name := p.FuncName(f)
+		if !mayConstruct[f] {
 			continue
 		}
-		for _, c := range cs {
-			if MustPass(c, func(x ssa.Instruction) bool { return isFreezeSet(x, ba.freeze) }) {
-				r.OK(name+":sets-freeze", p.InstrPos(c), "the freeze flag is set on every path before the template is constructed")
-			} else {
-				r.Bad(name+":sets-freeze", p.InstrPos(c), "a template can be constructed without the freeze flag having been set: later BanTag/BanFilter calls would still be accepted")
-			}
+		bad, n := unfrozen(f, map[*ssa.Function]bool{})
+		switch {
+		case bad != nil:
+			r.Bad(name+":sets-freeze", p.InstrPos(bad), "a template can be constructed (at %s, reached from %s) without the freeze flag having been set: BanTag/BanFilter calls are still accepted after this set has created a template", p.InstrPos(bad), name)
+		case n == 0:
+			r.Trivial(name+":sets-freeze", p.Pos(f.Pos()), "constructs no template")
+		default:
+			r.OK(name+":sets-freeze", p.Pos(f.Pos()), "the freeze flag is set on every path before a template is constructed, here or in the helper/entry it constructs through")
 		}
 	}
 }
